@@ -122,6 +122,12 @@ structure Cfg where
   /-- every `diff` starts with `super().diff(other_sliver)` and the abstract `BaseSliver.diff` is
       `assert isinstance(self, other_sliver.__class__)`: slivers of unrelated classes are never compared -/
   classGuard : Bool
+  /-- `BaseSliver._dict_diff` and `_dict_common` select children by dictionary KEY alone: each result is a comprehension
+      `{k: d[k] for k in set(dict_a) <-, &> set(dict_b)}` with no further condition - in particular none on the slivers stored
+      under the key (their `node_id`, their weak `__eq__`).  With it every key of either side is in exactly one of
+      removed / common / added (`Proofs/C17.dict_partition_by_key`); a value-dependent filter in one of the two helpers lets a
+      child whose key is on both sides drop out of the comparison altogether (C17-r4-1) -/
+  dictKeyOnly : Bool
   vals : ValCfg
   node : MethodCfg
   svc : MethodCfg
